@@ -3,6 +3,7 @@ package c15
 import (
 	stdjson "encoding/json"
 	"fmt"
+	"regexp"
 	"strconv"
 	"strings"
 	"testing"
@@ -74,6 +75,11 @@ func check(t run.TB, c Case) bool {
 		if cutoff && run.MatchKnown("C15-cutoff-omits-required-property") {
 			return true
 		}
+		// the other recorded finding: the key written for a key shortcut (the example of its type) is
+		// the same as another key of the same object, so the example has one key twice
+		if doc, perr := ref.Parse(ex); perr == nil && duplicateKey(doc) && hasShortcut(c.Spec) && run.MatchKnown("C15-shortcut-key-example-collides") {
+			return true
+		}
 		run.Fail(t, chk, c, "Example() %s is rejected by its own schema: %v", ex, v)
 	}
 	if c.Plain != "" && string(ex) != c.Plain {
@@ -85,6 +91,37 @@ func check(t run.TB, c Case) bool {
 		run.Fail(t, chk, c, "second Example() call returns %s, first returned %s", ex2, ex)
 	}
 	return true
+}
+
+// duplicateKey: some object of the document has two members with the same (decoded) key.
+func duplicateKey(v *ref.Value) bool {
+	seen := map[string]bool{}
+	for _, m := range v.Members {
+		if seen[m.Key] || duplicateKey(m.Val) {
+			return true
+		}
+		seen[m.Key] = true
+	}
+	for _, it := range v.Items {
+		if duplicateKey(it) {
+			return true
+		}
+	}
+	return false
+}
+
+var reShortcutKey = regexp.MustCompile(`(?m)^\s*@[A-Za-z0-9_]+\s*:`)
+
+func hasShortcut(sp lib.Spec) bool {
+	if reShortcutKey.MatchString(sp.Schema) {
+		return true
+	}
+	for _, t := range sp.Types {
+		if reShortcutKey.MatchString(t.Text) {
+			return true
+		}
+	}
+	return false
 }
 
 // graphs for this property: optional recursion placed first / middle / last among the properties
